@@ -6,6 +6,7 @@ package main
 import (
 	"go/ast"
 	"go/token"
+	"sort"
 	"strings"
 
 	"verifextract/lib"
@@ -251,5 +252,133 @@ func main() {
 				}), "Cache."+g)
 			})
 		}
-	}, "cache/cache.go", "cache/cleaner.go")
+		// ---- one layer up: the maintenance tick (fracmanager/cache_maintainer.go) and frac.IndexCache.Release
+		if cm, err := r.Load("fracmanager/cache_maintainer.go"); err != nil {
+			e.Missing("cache_maintainer.go", err)
+		} else {
+			fn(cm, "CacheMaintainer", "RunCleanLoop", "tickStatements", func(fd *ast.FuncDecl) {
+				// the function literal passed to util.RunEvery is the tick
+				var tick *ast.FuncLit
+				ast.Inspect(fd.Body, func(x ast.Node) bool {
+					if c, ok := x.(*ast.CallExpr); ok && strings.HasSuffix(cm.Render(c.Fun), "RunEvery") {
+						for _, a := range c.Args {
+							if fl, ok := a.(*ast.FuncLit); ok {
+								tick = fl
+							}
+						}
+					}
+					return true
+				})
+				if tick == nil {
+					e.Missing("tickStatements", "no func literal passed to RunEvery")
+					return
+				}
+				var top, gc []string
+				for _, st := range tick.Body.List {
+					if is, ok := st.(*ast.IfStmt); ok {
+						top = append(top, "if "+cm.Render(is.Cond))
+						for _, c := range cm.Calls(is.Body) {
+							if strings.HasPrefix(c, "cm.") {
+								gc = append(gc, c)
+							}
+						}
+						if is.Else != nil {
+							top = append(top, "else")
+						}
+						continue
+					}
+					top = append(top, cm.Render(st))
+				}
+				e.Strs("tickStatements", top, "RunCleanLoop: the top-level statements of the tick body (conditions rendered as `if ...`)")
+				e.Strs("tickGcCalls", gc, "RunCleanLoop: maintainer calls inside the tick's conditional statements")
+			})
+			loopCalls := func(recv, name, def string) {
+				fn(cm, recv, name, def, func(fd *ast.FuncDecl) {
+					var res []string
+					ast.Inspect(fd.Body, func(x ast.Node) bool {
+						switch v := x.(type) {
+						case *ast.RangeStmt:
+							res = append(res, "range "+cm.Render(v.X))
+						case *ast.IfStmt:
+							if v.Init == nil { // a guard that is not the `if x := call(); x > 0` reporting form
+								res = append(res, "if "+cm.Render(v.Cond))
+							}
+						case *ast.CallExpr:
+							if c := cm.Render(v.Fun); strings.HasPrefix(c, "cleaner.") && c != "cleaner.SizeLimit" {
+								res = append(res, c)
+							}
+						}
+						return true
+					})
+					e.Strs(def, res, recv+"."+name+": loops, guards and cleaner calls in source order")
+				})
+			}
+			loopCalls("CacheMaintainer", "rotate", "maintainerRotateCalls")
+			loopCalls("CacheMaintainer", "garbageCollection", "maintainerGcCalls")
+			fn(cm, "CacheMaintainer", "cleanup", "maintainerCleanupCalls", func(fd *ast.FuncDecl) {
+				// the Cleanup call is the condition of the logging `if`; what matters is that it is reached for every cleaner
+				var res []string
+				for _, st := range fd.Body.List {
+					if rs, ok := st.(*ast.RangeStmt); ok {
+						res = append(res, "range "+cm.Render(rs.X))
+						for _, inner := range rs.Body.List {
+							if is, ok := inner.(*ast.IfStmt); ok {
+								for _, c := range cm.Calls(is.Cond) {
+									if strings.HasPrefix(c, "cleaner.") {
+										res = append(res, c)
+									}
+								}
+								break
+							}
+							if _, ok := inner.(*ast.AssignStmt); !ok {
+								res = append(res, "stmt "+cm.Render(inner))
+							}
+						}
+					} else {
+						res = append(res, "stmt "+cm.Render(st))
+					}
+				}
+				e.Strs("maintainerCleanupCalls", res, "CacheMaintainer.cleanup: the loop and the cleaner call reached in every iteration")
+			})
+		}
+		if ic, err := r.Load("frac/sealed_index_cache.go"); err != nil {
+			e.Missing("sealed_index_cache.go", err)
+		} else {
+			var fields []string
+			for _, d := range ic.AST.Decls {
+				gd, ok := d.(*ast.GenDecl)
+				if !ok {
+					continue
+				}
+				for _, sp := range gd.Specs {
+					ts, ok := sp.(*ast.TypeSpec)
+					if !ok || ts.Name.Name != "IndexCache" {
+						continue
+					}
+					if st, ok := ts.Type.(*ast.StructType); ok {
+						for _, f := range st.Fields.List {
+							if strings.Contains(ic.Render(f.Type), "cache.Cache[") {
+								for _, n := range f.Names {
+									fields = append(fields, n.Name)
+								}
+							}
+						}
+					}
+				}
+			}
+			sort.Strings(fields)
+			e.Strs("indexCacheFields", fields, "frac.IndexCache: fields of type *cache.Cache[...], sorted")
+			fn(ic, "IndexCache", "Release", "indexCacheReleased", func(fd *ast.FuncDecl) {
+				var rel []string
+				for _, c := range ic.Calls(fd.Body) {
+					if strings.HasPrefix(c, "s.") && strings.HasSuffix(c, ".Release") {
+						rel = append(rel, strings.TrimSuffix(strings.TrimPrefix(c, "s."), ".Release"))
+					}
+				}
+				sort.Strings(rel)
+				e.Strs("indexCacheReleased", rel, "IndexCache.Release: fields whose Release is called, sorted")
+				e.Strs("indexCacheReleaseConds", conds(ic, fd.Body), "IndexCache.Release: conditions (none expected: every call is unconditional)")
+			})
+		}
+	}, "cache/cache.go", "cache/cleaner.go", "fracmanager/cache_maintainer.go", "frac/sealed_index_cache.go")
 }
